@@ -204,7 +204,7 @@ Proof. intro H. cbn. destruct (Nat.eqb_spec a k); [congruence | reflexivity]. Qe
 
 Lemma step_inv s o : Inv s -> Inv (step s o).
 Proof.
-  intro I. destruct o as [pin pout | m0 | m | e m]; cbn [step].
+  intro I. destruct o as [pin pout | m0 | m0 pout | m | e m]; cbn [step].
   - (* NewModel *)
     destruct (pid_free s pin && pid_free s pout && negb (pin =? pout)) eqn:G; [|exact I].
     apply andb_true_iff in G as [G G3]. apply andb_true_iff in G as [G1 G2].
@@ -243,6 +243,27 @@ Proof.
       split; [rewrite assoc_cons_ne by congruence; exact Hk | exact P].
     + intros e m' Hin. destruct (Ie e m' Hin) as [k Hk]. exists k.
       assert (m' <> next s) by (apply assoc_in_fst in Hk; apply Iml in Hk; lia).
+      rewrite assoc_cons_ne by congruence. exact Hk.
+  - (* NewOutput *)
+    unfold find_model. destruct (assoc m0 (models s)) as [k0|] eqn:E; [|exact I].
+    destruct (pid_free s pout) eqn:G; [|exact I]. apply pid_free_spec in G.
+    destruct I as [Ip Itl Iml Imt Ic Ie].
+    assert (Fresh_t : forall t, In t (map fst (tensors s)) -> t <> next s) by (intros t K; apply Itl in K; lia).
+    constructor; cbn [tensors models roots cache explainers next map fst snd].
+    + constructor; assumption.
+    + intros t [<-|K]; [lia | apply Itl in K; lia].
+    + intros m' [<-|K]; [lia | apply Iml in K; lia].
+    + intros m' k Hk. cbn [assoc] in Hk. destruct (Nat.eqb_spec (S (next s)) m').
+      * injection Hk as <-. cbn [fst snd]. split; [right; apply (Imt m0 k0 E) | left; reflexivity].
+      * destruct (Imt m' k Hk). split; right; assumption.
+    + intros key cm Hin. destruct (Ic key cm Hin) as [k [Hk [P1 P2]]]. exists k.
+      assert (cm <> S (next s)) by (apply assoc_in_fst in Hk; apply Iml in Hk; lia).
+      split; [rewrite assoc_cons_ne by congruence; exact Hk|].
+      unfold pid_of in *. cbn [tensors].
+      destruct (Imt cm k Hk) as [T1 T2]. pose proof (Fresh_t _ T1). pose proof (Fresh_t _ T2).
+      rewrite !assoc_cons_ne by congruence. auto.
+    + intros e m' Hin. destruct (Ie e m' Hin) as [k Hk]. exists k.
+      assert (m' <> S (next s)) by (apply assoc_in_fst in Hk; apply Iml in Hk; lia).
       rewrite assoc_cons_ne by congruence. exact Hk.
   - (* Discard *)
     apply gc_inv. destruct I as [Ip Itl Iml Imt Ic Ie]. constructor; cbn; auto.
@@ -300,10 +321,13 @@ Proof.
   unfold effective in *. destruct (assoc e (explainers s)) as [mh|] eqn:E; [|discriminate].
   unfold fn_of, find_model in *.
   assert (Hlt : mh < next s) by (apply Iml; eapply assoc_in_fst; exact He).
-  destruct o as [pin pout | m0 | m | e' m]; cbn [step].
+  destruct o as [pin pout | m0 | m0 pout | m | e' m]; cbn [step].
   - destruct (pid_free s pin && pid_free s pout && negb (pin =? pout)); cbn [explainers models]; rewrite E; [|exact He].
     rewrite assoc_cons_ne by lia. exact He.
   - unfold find_model. destruct (assoc m0 (models s)); cbn [explainers models]; rewrite E; [|exact He].
+    rewrite assoc_cons_ne by lia. exact He.
+  - unfold find_model. destruct (assoc m0 (models s)); [|rewrite E; exact He].
+    destruct (pid_free s pout); cbn [explainers models]; rewrite E; [|exact He].
     rewrite assoc_cons_ne by lia. exact He.
   - cbn [gc explainers models roots cache tensors next]. rewrite E.
     rewrite assoc_filter; [exact He | intros; reflexivity|].
